@@ -139,7 +139,7 @@ def value : Nat → Str → Bool → Str → J → Res PV
           | .err e => .err e
           | .panic q => .panic q
           | .ok ps => .ok (p :: ps)
-    -- `LocaleSeed::visit_map`: keys in document order into a `BTreeMap` (a later equal key replaces)
+    -- `LocaleSeed::visit_map`: keys in document order into a `BTreeMap` (an equal key is rejected)
     let rec localeKeys : List (Str × J) → List (Str × PV) → Res (List (Str × PV))
       | [], acc => .ok acc
       | (k, x) :: rest, acc =>
@@ -149,7 +149,9 @@ def value : Nat → Str → Bool → Str → J → Res PV
           match value fuel top false key' x with
           | .err e => .err e
           | .panic p => .panic p
-          | .ok pv => localeKeys rest (AMap.insert' key' pv acc)
+          | .ok pv =>
+            -- keys are trimmed: `"a"` and `"a "` are the same key; a second occurrence is rejected
+            if AMap.contains key' acc then .err "DuplicateKey" else localeKeys rest (AMap.insert' key' pv acc)
     match j with
     | .str s => Parse.new s
     | .bool b => .ok (.lit (.bool b))
